@@ -595,7 +595,11 @@ class CausalInference(object):
                     "Not all parents of do variables are observed. Please specify an adjustment set."
                 )
 
-        infer = inference_algo(self.model)
+        if isinstance(inference_algo, Inference):
+            # An engine instance: use its algorithm on this model.
+            infer = type(inference_algo)(self.model)
+        else:
+            infer = inference_algo(self.model)
 
         # Step 3.1: If no do variable specified, do a normal probabilistic inference.
         if do == {}:
